@@ -94,58 +94,62 @@ func CheckC19(c *Ctx) {
 	if rd := c.fn("helper", "Csv", "ReadFromReader"); rd != nil {
 		n := 0
 		var stack []ast.Node
-		ast.Inspect(rd.Decl.Body, func(nd ast.Node) bool {
-			if nd == nil {
-				stack = stack[:len(stack)-1]
-				return true
-			}
-			stack = append(stack, nd)
-			ix, ok := nd.(*ast.IndexExpr)
-			if !ok {
-				return true
-			}
-			t := hinfo.TypeOf(ix.X)
-			if t == nil || t.String() != "[]string" {
-				return true
-			}
-			n++
-			recName := exprString(ix.X)
-			idx := exprString(ix.Index)
-			guarded := false
-			// look for a preceding sibling `if idx >= len(rec) {... exit}` in any enclosing block
-			for i := len(stack) - 1; i >= 0 && !guarded; i-- {
-				blk, ok := stack[i].(*ast.BlockStmt)
-				if !ok {
-					continue
+		for _, body := range c.familyBodies(rd) {
+			stack = nil
+			ast.Inspect(body, func(nd ast.Node) bool {
+				if nd == nil {
+					stack = stack[:len(stack)-1]
+					return true
 				}
-				for _, s := range blk.List {
-					if s.End() > ix.Pos() {
-						break
-					}
-					is, ok := s.(*ast.IfStmt)
+				stack = append(stack, nd)
+				ix, ok := nd.(*ast.IndexExpr)
+				if !ok {
+					return true
+				}
+				t := hinfo.TypeOf(ix.X)
+				if t == nil || t.String() != "[]string" {
+					return true
+				}
+				n++
+				recName := exprString(ix.X)
+				idx := exprString(ast.Unparen(resolveLocals(hinfo, body, ix.Index)))
+				guarded := false
+				// look for a preceding sibling `if idx >= len(rec) {... exit}` in any enclosing block
+				for i := len(stack) - 1; i >= 0 && !guarded; i-- {
+					blk, ok := stack[i].(*ast.BlockStmt)
 					if !ok {
 						continue
 					}
-					cond := exprString(is.Cond)
-					if strings.Contains(cond, "len("+recName+")") && strings.Contains(cond, idx) {
-						if _, ok := endsWithExit(is.Body); ok {
-							guarded = true
+					for _, s := range blk.List {
+						if s.End() > ix.Pos() {
+							break
+						}
+						is, ok := s.(*ast.IfStmt)
+						if !ok {
+							continue
+						}
+						cond := strings.NewReplacer("(", "", ")", "").Replace(exprString(resolveLocals(hinfo, body, is.Cond)))
+						if strings.Contains(cond, "len"+recName) && strings.Contains(cond, strings.NewReplacer("(", "", ")", "").Replace(idx)) {
+							if _, ok := endsWithExit(is.Body); ok {
+								guarded = true
+							}
 						}
 					}
 				}
-			}
-			run.Oblige(guarded)
-			if !guarded {
-				c.violate("reader/bounds", "helper.(*Csv).ReadFromReader", recName+"["+idx+"]", ix.Pos(),
-					"a decoded CSV record is indexed without a bounds check: a header-less input whose first row has fewer fields than the struct panics in the reader goroutine")
-			}
-			return true
-		})
+				run.Oblige(guarded)
+				if !guarded {
+					c.violate("reader/bounds", "helper.(*Csv).ReadFromReader", recName+"["+idx+"]", ix.Pos(),
+						"a decoded CSV record is indexed without a bounds check: a header-less input whose first row has fewer fields than the struct panics in the reader goroutine")
+				}
+				return true
+			})
+		}
 		run.Count("record_index_sites", n)
 		run.Floor("record_index_sites", 1)
 	}
 	c.constructorDiscipline("reader/construction", "asset", "helper", "backtest")
 	c.closeHelpers()
+	c.decodeTargets()
 	if ok := panicSourcesSelfTest(); !ok {
 		run.Break("the panic-source detector no longer finds its built-in example")
 	} else {
@@ -478,7 +482,17 @@ func CheckC10(c *Ctx) {
 			c.appendSync(app)
 		}
 		if gs := c.methodDecl(n, "GetSince"); gs != nil {
+			before := run.Counts["getsince_filters"]
 			c.getSinceFilter(gs)
+			// the repositories that keep snapshots in the order they were appended (which need not
+			// be the order of their dates) select by looking at every stored snapshot's own date
+			if appendOrderStores[name] {
+				good := run.Counts["getsince_filters"] > before
+				run.Oblige(good)
+				if !good {
+					c.violate("repository/getsince", load.FuncName(gs.Fn), "no filter", gs.Decl.Pos(), "GetSince of "+name+" no longer passes every stored snapshot through a date predicate (helper.Filter): snapshots are stored in append order, so any positional shortcut (binary search, stop at the first match) returns the wrong set when dates are not ascending")
+				}
+			}
 		}
 		if ld := c.methodDecl(n, "LastDate"); ld != nil {
 			c.zeroTimeHasError(ld)
@@ -615,6 +629,9 @@ func (c *Ctx) appendSync(fi *load.FuncInfo) {
 		return true
 	})
 }
+
+// appendOrderStores: the bundled repositories that hand back what was appended, in append order.
+var appendOrderStores = map[string]bool{"InMemoryRepository": true, "FileSystemRepository": true}
 
 // getSinceFilter evaluates the filter closure on the orderings of (snapshot date, bound).
 func (c *Ctx) getSinceFilter(fi *load.FuncInfo) {
@@ -1750,4 +1767,61 @@ func (c *Ctx) closeHelpers() {
 		}
 	}
 	run.Count("close_helpers", n)
+}
+
+// decodeTargets: what encoding/json decodes into is the address of a value, not of a pointer.
+// For a target of type **T the JSON literal `null` (a well-formed document any peer may send)
+// stores nil in the pointer, and the field access that follows the successful decode panics;
+// into a *T target `null` is a no-op and the zero value is what the caller gets. Type parameters
+// are the caller's choice and are not judged.
+func (c *Ctx) decodeTargets() {
+	run := c.Run
+	n := 0
+	for _, rel := range []string{"asset", "helper", "backtest"} {
+		pk := c.P.Pkg(rel)
+		if pk == nil {
+			continue
+		}
+		info := pk.TypesInfo
+		for _, f := range pk.Syntax {
+			if strings.HasSuffix(c.P.Fset.Position(f.Pos()).Filename, "_test.go") {
+				continue
+			}
+			ast.Inspect(f, func(nd ast.Node) bool {
+				call, ok := nd.(*ast.CallExpr)
+				if !ok {
+					return true
+				}
+				var target ast.Expr
+				switch calleeName(info, call) {
+				case "encoding/json.Unmarshal":
+					if len(call.Args) == 2 {
+						target = call.Args[1]
+					}
+				case "encoding/json.(Decoder).Decode", "encoding/json.(*Decoder).Decode":
+					if len(call.Args) == 1 {
+						target = call.Args[0]
+					}
+				}
+				if target == nil {
+					return true
+				}
+				n++
+				t := info.TypeOf(target)
+				good := true
+				if p, isP := t.(*types.Pointer); isP {
+					if _, inner := p.Elem().Underlying().(*types.Pointer); inner {
+						good = false
+					}
+				}
+				run.Oblige(good)
+				if !good {
+					c.violate("reader/decode-target", rel, exprString(target), target.Pos(), "JSON is decoded into "+exprString(target)+" of type "+t.String()+": the document `null` sets the inner pointer to nil without an error, and the code that uses the decoded value dereferences it (a panic on malformed-but-valid input)")
+				}
+				return true
+			})
+		}
+	}
+	run.Count("json_decode_targets", n)
+	run.Floor("json_decode_targets", 3)
 }
